@@ -97,7 +97,22 @@ func (c *Ctx) ws() *WS {
 		byCall[methodOf(ci)] = append(byCall[methodOf(ci)], ci.Parent())
 	}
 	w.Reader = pickOne(byCall["NextReader"])
-	w.SendReq = pickOne(byCall["WriteJSON"])
+	// request writer: the function taking a wire request and performing a write-side socket call
+	{
+		var cands []*ssa.Function
+		for _, ci := range gorillaConnCalls(p) {
+			if !gorillaWriteSide[methodOf(ci)] {
+				continue
+			}
+			fn := ci.Parent()
+			for _, prm := range fn.Params {
+				if r.TReq != nil && prm.Type() == types.Type(r.TReq) {
+					cands = append(cands, fn)
+				}
+			}
+		}
+		w.SendReq = pickOne(cands)
+	}
 	w.NextWriter = pickOne(byCall["NextWriter"])
 	w.SetupPings = pickOne(byCall["SetPongHandler"])
 	w.ResetDL = pickOne(byCall["SetReadDeadline"])
